@@ -1,6 +1,6 @@
 /-
 C20 — heap-graph model of Go values and of the marshal traversal with the cycle detection
-**as implemented** (arshal_default.go:50-77, 797, 1477, 1727; arshal_any.go:110, 226).
+**as implemented** (arshal_default.go:50-77, 797, 1477, 1724-1735; arshal_any.go:110, 226).
 
 A Go value is a node of a finite graph; edges go from a pointer to its target, from an interface
 to its dynamic value, from a slice/array/map/struct to its elements.  The traversal mirrors:
@@ -8,11 +8,19 @@ to its dynamic value, from a slice/array/map/struct to its elements.  The traver
 * `Tokens.Depth()` grows by one exactly when a slice, array, map or struct is entered
   (WriteToken BeginArray/BeginObject, refused with errMaxDepth when `len(Stack) == maxNestingDepth`,
   i.e. when `Depth() == max+1`); a pointer or interface hop does **not** change it;
-* `visitPointer` is consulted by the pointer, slice and map arshalers only — and only when
-  `Tokens.Depth() > startDetectingCyclesAfter`;  struct, array and interface arshalers never
-  consult it;
-* an empty (or nil) slice/map is written by the `[]`/`{}` shortcut without WriteToken, hence
-  without the depth test (arshal_default.go:827, 1507; arshal_any.go:123, 239).
+* `visitPointer` is consulted by the pointer, slice and map arshalers only.  Slices and maps consult
+  it when `Tokens.Depth() > startDetectingCyclesAfter`; the pointer arshaler when
+  `Tokens.Depth() > startDetectingCyclesAfter || pointsToPointerLike`, where `pointsToPointerLike`
+  says that the pointer's element type is a pointer or an interface (repo commit 407e50b; before it
+  the clause was absent — `trackPtrLike := false` reproduces the old traversal);
+  struct, array and interface arshalers never consult it;
+* an empty (or nil) slice/map is written by the `[]`/`{}` shortcut without WriteToken — since repo
+  commit c2b1a73 only when `!Tokens.AtMaxDepth()` (`guardEmpty := false` reproduces the old shortcut).
+
+`pointsToPointerLike` is a property of the static type `*T`; in the graph it is read off the target
+node (a value of type `T` is a pointer node iff `T` is a pointer type, an interface node iff `T` is an
+interface type).  An interface whose dynamic value is again an interface is not a Go value and is
+answered `dangling`, like an edge to a missing node.
 
 The result is a value-or-error; `outOfFuel` stands for "the real code is still recursing".
 Core Lean only.
@@ -30,7 +38,7 @@ def Kind.deepens : Kind → Bool
   | .slice | .map | .array | .struct => true
   | _ => false
 
-/-- does the arshaler of this kind call visitPointer (when past the threshold) -/
+/-- does the arshaler of this kind call visitPointer at all -/
 def Kind.tracked : Kind → Bool
   | .ptr | .slice | .map => true
   | _ => false
@@ -47,9 +55,26 @@ inductive Res where
   | ok          -- JSON written
   | cycle       -- internal.ErrCycle
   | maxDepth    -- errMaxDepth
-  | dangling    -- edge to a node that does not exist (not a Go value)
+  | dangling    -- not a Go value: edge to a missing node, or an interface holding an interface
   | outOfFuel   -- still recursing
 deriving DecidableEq, Repr, Inhabited
+
+structure Cfg where
+  max : Nat                    -- maxNestingDepth
+  after : Nat                  -- startDetectingCyclesAfter
+  trackPtrLike : Bool := true  -- the `|| pointsToPointerLike` clause of makePointerArshaler
+  guardEmpty : Bool := true    -- the `&& !xe.Tokens.AtMaxDepth()` clause of the `[]`/`{}` shortcuts
+deriving Repr
+
+def kindOf (g : Heap) (n : Nat) : Option Kind := (g[n]?).map (·.kind)
+
+/-- node `c` is a pointer or an interface -/
+def isPtrLike (g : Heap) (c : Nat) : Bool := kindOf g c = some .ptr || kindOf g c = some .iface
+
+def isIface (g : Heap) (c : Nat) : Bool := kindOf g c = some .iface
+
+/-- `pointsToPointerLike` of the pointer node `nd` -/
+def pointsToPtrLike (g : Heap) (nd : Node) : Bool := nd.kind = .ptr && nd.succ.any (isPtrLike g)
 
 /-- first non-ok result, in element order (an error aborts the marshal call). -/
 def seqRes (f : Nat → Res) : List Nat → Res
@@ -58,28 +83,32 @@ def seqRes (f : Nat → Res) : List Nat → Res
     | .ok => seqRes f cs
     | e => e
 
-/-- `marshal g max after fuel depth seen n`: marshal node `n` with `Tokens.Depth() = depth` and the
-visited set `seen` (`xe.SeenPointers`; entries are removed on the way back, so passing it down is exact). -/
-def marshal (g : Heap) (max after : Nat) : Nat → Nat → List Nat → Nat → Res
+/-- is visitPointer consulted for node `nd` at token depth `depth` -/
+def consults (cfg : Cfg) (g : Heap) (nd : Node) (depth : Nat) : Bool :=
+  nd.kind.tracked && (decide (cfg.after < depth) || (cfg.trackPtrLike && pointsToPtrLike g nd))
+
+/-- `marshal cfg g fuel depth seen n`: marshal node `n` with `Tokens.Depth() = depth` and the visited set
+`seen` (`xe.SeenPointers`; entries are removed on the way back, so passing it down is exact). -/
+def marshal (cfg : Cfg) (g : Heap) : Nat → Nat → List Nat → Nat → Res
   | 0, _, _, _ => .outOfFuel
   | fuel + 1, depth, seen, n =>
     match g[n]? with
     | none => .dangling
     | some nd =>
-      -- `if xe.Tokens.Depth() > startDetectingCyclesAfter { visitPointer … }`
-      if nd.kind.tracked ∧ after < depth ∧ n ∈ seen then .cycle
+      if consults cfg g nd depth ∧ n ∈ seen then .cycle
       else
-        let seen' := if nd.kind.tracked ∧ after < depth then n :: seen else seen
+        let seen' := if consults cfg g nd depth then n :: seen else seen
         if nd.kind = .scalar then .ok
         else if nd.kind.deepens then
-          -- `[]` / `{}` shortcut for empty slices and maps: no token, no depth test
-          if (nd.kind = .slice ∨ nd.kind = .map) ∧ nd.succ = [] then .ok
+          -- `[]` / `{}` shortcut for empty slices and maps: no token, hence no depth test of its own
+          if (nd.kind = .slice ∨ nd.kind = .map) ∧ nd.succ = [] ∧ ¬ (cfg.guardEmpty ∧ depth = cfg.max + 1) then .ok
           -- WriteToken(BeginArray/BeginObject): errMaxDepth iff len(Stack) == max
-          else if depth = max + 1 then .maxDepth
-          else seqRes (fun c => marshal g max after fuel (depth + 1) seen' c) nd.succ
+          else if depth = cfg.max + 1 then .maxDepth
+          else seqRes (fun c => marshal cfg g fuel (depth + 1) seen' c) nd.succ
+        else if nd.kind = .iface ∧ nd.succ.any (isIface g) then .dangling
         else
           -- pointer / interface: same token depth
-          seqRes (fun c => marshal g max after fuel depth seen' c) nd.succ
+          seqRes (fun c => marshal cfg g fuel depth seen' c) nd.succ
 
 /-- `type P *P; p = &p`: one pointer node whose target is itself. -/
 def selfPtr : Heap := [{ kind := .ptr, succ := [0] }]
